@@ -15,3 +15,4 @@ import MW.Props.C05
 #print axioms MW.Props.C05.payouts_every_history
 #print axioms MW.Props.C05.no_request_no_payout
 #print axioms MW.Props.C05.withdraw_tx_pays
+#print axioms MW.Props.C05.messages_are_the_modelled_ones
